@@ -211,6 +211,125 @@ func Field(ptr any, name string) any {
 func Put64(b []byte, off int, x int64) { binary.BigEndian.PutUint64(b[off:], uint64(x)) }
 func Get64(b []byte, off int) int64    { return int64(binary.BigEndian.Uint64(b[off:])) }
 
+// Snapshot remembers the state of everything reachable from root under a name
+// (symbolically: the reachable memory cells are coloured and every later write
+// to them is logged; natively: a canonical deep rendering is kept).
+func Snapshot(root any, name string) {
+	snapRoots[name] = root
+	snaps[name] = render(reflect.ValueOf(root), map[uintptr]bool{}, 0)
+}
+
+// Changed reports whether anything reachable from the snapshot root may now
+// hold a different value (symbolically one Boolean term: the disjunction over
+// all logged writes of old != new).
+func Changed(name string) bool {
+	return snaps[name] != render(reflect.ValueOf(snapRoots[name]), map[uintptr]bool{}, 0)
+}
+
+// ChangedWhere names the writers found by the last Changed (diagnostics, symbolic only).
+func ChangedWhere() string { return "" }
+
+// WatchGlobals starts logging writes to package-level variables of the module; GlobalWrites counts them.
+func WatchGlobals()     {}
+func GlobalWrites() int { return 0 }
+
+var (
+	snaps     = map[string]string{}
+	snapRoots = map[string]any{}
+)
+
+func render(v reflect.Value, seen map[uintptr]bool, depth int) string {
+	if !v.IsValid() || depth > 12 {
+		return "<>"
+	}
+	switch v.Kind() {
+	case reflect.Ptr:
+		if v.IsNil() {
+			return "nil"
+		}
+		if seen[v.Pointer()] {
+			return "<cycle>"
+		}
+		seen[v.Pointer()] = true
+		defer delete(seen, v.Pointer())
+		return "&" + render(v.Elem(), seen, depth+1)
+	case reflect.Interface:
+		if v.IsNil() {
+			return "nil"
+		}
+		return render(v.Elem(), seen, depth+1)
+	case reflect.Struct:
+		s := "{"
+		for i := 0; i < v.NumField(); i++ {
+			f := v.Field(i)
+			if v.Type().Field(i).PkgPath != "" && v.Type().String() != "time.Time" {
+				continue
+			}
+			if f.Kind() == reflect.Func {
+				continue
+			}
+			if v.Type().String() == "time.Time" {
+				if m := v.MethodByName("UnixNano"); m.IsValid() && v.CanInterface() {
+					return fmt.Sprint(m.Call(nil)[0].Int())
+				}
+				return "time"
+			}
+			s += v.Type().Field(i).Name + ":" + render(f, seen, depth+1) + ","
+		}
+		return s + "}"
+	case reflect.Slice, reflect.Array:
+		if v.Kind() == reflect.Slice && v.IsNil() {
+			return "[]nil"
+		}
+		s := "["
+		// the spare capacity is reachable too
+		n := v.Len()
+		full := v
+		if v.Kind() == reflect.Slice && v.Cap() > n {
+			full = v.Slice(0, v.Cap())
+		}
+		for i := 0; i < full.Len(); i++ {
+			if i == n {
+				s += "|"
+			}
+			s += render(full.Index(i), seen, depth+1) + ","
+		}
+		return s + "]"
+	case reflect.Map:
+		if v.IsNil() {
+			return "map nil"
+		}
+		var ks []string
+		for _, k := range v.MapKeys() {
+			ks = append(ks, render(k, seen, depth+1)+"="+render(v.MapIndex(k), seen, depth+1))
+		}
+		sort.Strings(ks)
+		return "map[" + strings.Join(ks, ",") + "]"
+	case reflect.String:
+		return strconv.Quote(v.String())
+	case reflect.Func, reflect.Chan, reflect.UnsafePointer:
+		return "fn"
+	}
+	if v.CanInterface() {
+		return fmt.Sprint(v.Interface())
+	}
+	switch v.Kind() {
+	case reflect.Int, reflect.Int8, reflect.Int16, reflect.Int32, reflect.Int64:
+		return strconv.FormatInt(v.Int(), 10)
+	case reflect.Uint, reflect.Uint8, reflect.Uint16, reflect.Uint32, reflect.Uint64:
+		return strconv.FormatUint(v.Uint(), 10)
+	case reflect.Bool:
+		return strconv.FormatBool(v.Bool())
+	}
+	return "?"
+}
+
+// Store / Load pass values between a harness and the models without import cycles.
+var kv = map[string]any{}
+
+func Store(key string, val any) { kv[key] = val }
+func Load(key string) any       { return kv[key] }
+
 func PermuteMaps(on bool) {}
 
 // DependsOn reports whether some byte of b is (syntactically) a function of a
